@@ -18,7 +18,7 @@ func checkC03(p *Prog, r *Report) {
 	r.Trusted = []string{"cometbft crypto/secp256k1", "btcutil/base58", "gogoproto"}
 	m03 := didRules(p, r, "C03", func(tag string) bool {
 		switch tag {
-		case "store", "proof", "proofbody", "life":
+		case "store", "proof", "proofbody", "life", "bind":
 			return true
 		}
 		return false
@@ -73,7 +73,7 @@ func checkC05(p *Prog, r *Report) {
 		switch tag {
 		// proofbody: a tombstone differs from "absent" only by its non-zero sequence, which is the proof's result — the proof must hand
 		// back the verifier's seq+1 on every key-type path
-		case "store", "life", "seq", "proofbody":
+		case "store", "life", "seq", "proofbody", "bind":
 			return true
 		}
 		return false
@@ -108,7 +108,7 @@ func checkC11(p *Prog, r *Report) {
 	checkCustomProtoDelegation(p, r, "C11")
 	// verification-method ids (which proofs name) are rooted at the document's own DID: '<did>#…'
 	checkDidDocumentValid(p, r, func(rule, rest string) string { return rule + ":C11:" + rest })
-	didQueryRules(p, r, m, "C11", false, false, true)
+	didQueryRules(p, r, m, "C11", true, false, true)
 	// genesis import keeps the binding: every entry is stored whole under the very key it was exported under
 	didGenesisRules(p, r, m, "C11")
 	checkNoLanguageDowngrade(p, r, "C11")
